@@ -9,7 +9,13 @@ package x509tools
 //@   pure
 //@   ghost compares int = 0
 //@   ghost allEqual bool = true
-//@   on call (*math/big.Int).Cmp(a, b) ret (c): compares = compares + 1; allEqual = allEqual && c == 0
+//@   ghost argsOK bool = true
+//@   on call (*math/big.Int).Cmp(a, b) ret (c): compares = compares + 1; allEqual = allEqual && c == 0; \
+//@        argsOK = argsOK && ( \
+//@          (compares == 1 && a == unbox(cur(pub1), *rsa.PublicKey).N && b == unbox(cur(pub2), *rsa.PublicKey).N && istype(cur(pub1), *rsa.PublicKey)) || \
+//@          (compares == 1 && a == unbox(cur(pub1), *ecdsa.PublicKey).X && b == unbox(cur(pub2), *ecdsa.PublicKey).X && istype(cur(pub1), *ecdsa.PublicKey)) || \
+//@          (compares == 2 && a == unbox(cur(pub1), *ecdsa.PublicKey).Y && b == unbox(cur(pub2), *ecdsa.PublicKey).Y && istype(cur(pub1), *ecdsa.PublicKey)))
+//@   ensures @compares_the_two_keys_with_each_other ret0 ==> argsOK
 //@   ensures @same_algorithm ret0 ==> (istype(cur(pub1), *rsa.PublicKey) && istype(cur(pub2), *rsa.PublicKey)) || \
 //@        (istype(cur(pub1), *ecdsa.PublicKey) && istype(cur(pub2), *ecdsa.PublicKey))
 //@   ensures @rsa_same_modulus_and_exponent ret0 && istype(cur(pub1), *rsa.PublicKey) ==> compares == 1 && allEqual && \
